@@ -4,13 +4,13 @@
  R2  the fold walks the ordered indices from last to first, taking index argument and dimension with the same subscript (order[i]);
      @dimOrder is validated as a permutation (range and duplicate guards), argument count is checked against the dimension count
 """
-from vlib.facts import kids, strip, walk, is_call, call_args, call_object, callee, render, literal, noid
+from vlib.facts import decl_of, kids, strip, walk, is_call, call_args, call_object, callee, render, literal, noid
 from vlib.paren import Paren, ANY, CLEAN
 from vlib.cfg import write_target
 from vlib.work import AnalysisBroken
 from vlib.exprterm import Builder, TermError, NF, Poly, normal_form, show, member_chain, dsl_soundness
 
-UNITS = ["src/occa/internal/lang/parser.cpp", "src/occa/internal/lang/builtins/attributes/dim.cpp", "src/occa/internal/lang/operator.cpp", "src/occa/internal/lang/expr/expr.cpp"]
+UNITS = ["src/occa/internal/lang/parser.cpp", "src/occa/internal/lang/expr/exprNodeArray.cpp", "src/occa/internal/lang/builtins/attributes/dim.cpp", "src/occa/internal/lang/operator.cpp", "src/occa/internal/lang/expr/expr.cpp"]
 D = "occa::lang::attributes::dim::"
 
 
@@ -117,6 +117,25 @@ def run(ctx):
     R.ob("C19-R4", kept, pt.q, "pipeline:rewrite result folded into `success`", pt.site(vc[0]) if vc else pt.relfile, "a failed rewrite fails the parse" if kept else "the result of the rewrite is dropped")
     ov = [o.q for o in prog.overriders("occa::lang::parser_t::parseTokens") if o.q != pt.q]
     R.ob("C19-R4", not ov, pt.q, "pipeline:not overridden", "%s:%d" % (pt.relfile, pt.d["line"]), "one pipeline for all backends" if not ov else "overridden by %s" % ov)
+    # ---- R5: nested accesses x(y(i, j), k): the inner access is visited first and must already be replaced when the outer one is expanded --------
+    R.rule("C19-R5", "the in-place map splices each rewritten node into the tree before the next node is handed to the rewrite (nested @dim accesses)", floor=2)
+    uses = [c for c in ac.calls() if callee(c).endswith("::inplaceMap")]
+    R.ob("C19-R5", len(uses) == 1, ac.q, "nested:the rewrite runs through inplaceMap over the flat (children first) call list", ac.site(uses[0]) if uses else ac.relfile, "flatFilterByExprType(call).inplaceMap(...)")
+    for mq in ("occa::lang::exprNodeArray::inplaceMap",):
+        im = prog.fn(mq)
+        fpar = im.d["params"][0]["d"]
+        bodies = [im] + [prog.funcs[n["lam"]] for n in im.walk() if n["k"] == "LambdaExpr" and n["lam"] in prog.funcs]
+        ok, site = False, "%s:%d" % (im.relfile, im.d["line"])
+        for b in bodies:
+            results = [v for v in b.walk() if v["k"] == "VarDecl" and kids(v) and any(x["k"] == "CXXOperatorCallExpr" and x.get("op") == "()" and any(y["k"] == "DeclRefExpr" and y.get("d") == fpar for y in walk(x)) for x in walk(kids(v)[0]))]
+            reps = [c for c in b.walk() if is_call(c) and callee(c).endswith("::replaceExprNode")]
+            if results and reps:
+                site = b.site(reps[0])
+                ok = any(decl_of(call_args(c)[1]) == results[0]["d"] for c in reps if len(call_args(c)) == 2)
+        R.ob("C19-R5", ok, mq, "nested:callback result spliced in the same visit", site,
+             "func(node) and replaceExprNode(node, result) happen in one visit, children before parents" if ok else
+             "the callbacks run over all nodes before any replacement is applied: expanding x(y(i, j), k) clones the not yet rewritten y(i, j), and that stale copy replaces the rewritten one - the inner access is left as a call")
+
     chk = [c for c in f.walk() if is_call(c) and callee(c) == D + "callHasValidIndices"]
     R.ob("C19-R2", len(chk) == 1, ac.q, "argument count checked against the dimension count", f.site(chk[0]) if chk else f.relfile, "callHasValidIndices before the fold")
     hv = prog.fn(D + "callHasValidIndices")
